@@ -652,6 +652,33 @@ def rule_checkpoints_on_segment(chk, prog):
                                              "returns the checkpoints with codes %s, expected %s" % (got, want))
 
 
+def rule_checkpoints_change_reroutes(chk, prog):
+    r = chk.rule("CHECKPOINT-CHANGE-REROUTES", "ConnRef::setRoutingCheckpoints, like its sibling setRoutingType, reaches its end only through "
+                 "makePathInvalid() and Router::modifyConnector(this): the route an already routed connector has was computed for the previous "
+                 "checkpoints, and nothing else in a transaction looks at a connector whose reroute flag is clear -- without the two calls the "
+                 "connector never visits the new checkpoints", floor=2)
+    for q, cond in (("Avoid::ConnRef::setRoutingCheckpoints", False), ("Avoid::ConnRef::setRoutingType", True)):
+        fn = prog.fn(q)
+        g = CFG(fn)
+        r.count()
+        inv = [c for c in calls(fn) if c.get("cname") == "Avoid::ConnRef::makePathInvalid"]
+        mod = [c for c in calls(fn) if (c.get("cname") or "").startswith("Avoid::Router::modifyConnector")]
+        bad = None
+        if not inv or not mod:
+            bad = "%s is not called: the connector keeps the route computed for the previous %s" % (
+                "makePathInvalid()" if not inv else "Router::modifyConnector", "type" if cond else "checkpoints")
+        elif not cond:
+            for what, cs_ in (("makePathInvalid()", inv), ("Router::modifyConnector", mod)):
+                w = g.exit_reachable_avoiding([c["id"] for c in cs_])
+                if w is not None:
+                    bad = bad or "a path through the function avoids %s (%s)" % (what, g.describe(w))
+        else:
+            ats = atoms(path_condition(fn, inv[0], inline=False))
+            if len(ats) != 1 or "m_type" not in sorted(ats)[0]:
+                bad = "makePathInvalid() only under %s" % sorted(ats)
+        (r.bad if bad else r.ok)(q.split("::")[-1], fn.where(), bad or "")
+
+
 def rule_endpoint_takes_connend(chk, prog):
     r = chk.rule("ENDPOINT-TAKES-NEW-CONNEND", "ConnRef::common_updateEndPoint: whenever the new end is a pin / junction connection, the connector's "
                  "m_src_connend (m_dst_connend) becomes a fresh copy of the GIVEN ConnEnd -- under no condition other than the end type and "
@@ -723,6 +750,7 @@ def rule_improver_checkpoints(chk, prog):
 def run(chk):
     prog = chk.load()
     chk.guard(rule_improver_checkpoints, chk, prog)
+    chk.guard(rule_checkpoints_change_reroutes, chk, prog)
     chk.guard(rule_endpoint_takes_connend, chk, prog)
     chk.guard(rule_pin_by_vertex, chk, prog)
     chk.guard(rule_checkpoints_on_segment, chk, prog)
